@@ -2,6 +2,7 @@
 import MpsGen.Alg
 import MpsGen.Codec
 import MpsGen.Guards
+import MpsGen.HandlerSrc
 import MpsGen.Hash
 import MpsGen.Nonce
 import MpsGen.OT
